@@ -64,8 +64,10 @@ def env_for(home, variant=0):
     return env
 
 
-def child(home, args, timeout=60, variant=0):
-    p = subprocess.run([PY, "-m", "vmon.failpoint"] + [str(a) for a in args], env=env_for(home, variant),
+def child(home, args, timeout=60, variant=0, extra_env=None):
+    env = env_for(home, variant)
+    env.update(extra_env or {})
+    p = subprocess.run([PY, "-m", "vmon.failpoint"] + [str(a) for a in args], env=env,
                        capture_output=True, text=True, timeout=timeout, cwd=os.path.dirname(home))
     info = None
     for line in p.stdout.splitlines()[::-1]:
@@ -335,7 +337,12 @@ def k_nocrash(run, case):
     try:
         home = prepare_home(base, scenario, stamp=stamp)
         ev = case["rs"][-1]
-        rc, info, err = child(home, [scenario, "count"], variant=ev)
+        # the start after a package upgrade may be the shell's tab completion (argcomplete starts
+        # the program with _ARGCOMPLETE set): it loads the settings like any other start
+        completion = {"_ARGCOMPLETE": "1"} if scenario == "upgrade" and case.get("completion") else None
+        rc, info, err = child(home, [scenario, "count"], variant=ev, extra_env=completion)
+        if completion:
+            run.hit("upgrade performed by a start in tab-completion mode")
         run.seen(case, core.digest(scenario, stamp), cls=["uninterrupted:" + scenario, "home written by release %r" % stamp.strip(),
                                                          "desktop session (DISPLAY set)" if ev % 2 else "headless"],
                  sample={"scenario": scenario, "stamp": stamp, "rc": rc})
@@ -415,6 +422,7 @@ def main(run):
             for wk in writes:
                 cells.append({"scenario": sc, "K": wk, "variant": "tornhalf", "layout": layout})
     nocrash = [{"scenario": sc, "stamp": st} for sc in SCENARIOS if sc.startswith("upgrade") for st in OLD_STAMPS]
+    nocrash += [{"scenario": "upgrade", "stamp": st, "completion": True} for st in OLD_STAMPS[:4]]
     nocrash += [{"scenario": "set_backend", "stamp": OLD_STAMPS[0]}, {"scenario": "set", "stamp": OLD_STAMPS[0]},
                 {"scenario": "reset_subset", "stamp": OLD_STAMPS[0]}]
     for i in run.mine(len(nocrash)):
